@@ -28,9 +28,34 @@ def _load(pid: str):
     return importlib.import_module(f'vf.props.{pid.lower()}')
 
 
+_CORES = None   # mp.Queue of free core ids (inherited through fork)
+
+
+def _pin():
+    """Pin this worker to one free core: the simulated sessions hand control between OS threads thousands of
+    times per second, which is several times faster when all threads of a process share a core."""
+    if _CORES is None or not hasattr(os, 'sched_setaffinity'):
+        return None
+    try:
+        core = _CORES.get(timeout=5)
+        os.sched_setaffinity(0, {core})
+        return core
+    except Exception:  # noqa
+        return None
+
+
 def _shard_entry(args):
     pid, spec, seed, tier = args
     t0 = time.time()
+    core = _pin()
+    try:
+        return _shard_body(pid, spec, seed, tier, t0)
+    finally:
+        if core is not None:
+            _CORES.put(core)
+
+
+def _shard_body(pid, spec, seed, tier, t0):
     try:
         mod = _load(pid)
         stats = Stats()
@@ -152,6 +177,15 @@ def main(argv=None) -> int:
     walls = []
     if jobs:
         ctx = mp.get_context('fork')
+        global _CORES
+        try:
+            cores = sorted(os.sched_getaffinity(0))
+        except AttributeError:
+            cores = []
+        if cores:
+            _CORES = ctx.Queue()
+            for c in (cores * NPROC)[:max(NPROC, len(cores))]:
+                _CORES.put(c)
         with ctx.Pool(processes=min(NPROC, len(jobs)), maxtasksperchild=1) as pool:
             for res in pool.imap_unordered(_shard_entry, jobs, chunksize=1):
                 walls.append((res['spec'].get('kind', '?'), round(res['wall'], 1)))
